@@ -202,6 +202,50 @@ func init() {
 			}
 		}})
 
+	register(&Rule{ID: "C06.R6", Props: []string{"C06", "C04"}, Min: 5, Needs: NeedMain,
+		Doc: "a field that fits exactly is accepted: wherever the decoders compare an announced length with the bytes remaining, the rejecting branch is taken only for length > remaining (never for length == remaining), so a well-formed field that ends exactly at the end of its buffer is neither rejected when read nor when skipped",
+		Run: func(r *R) {
+			for _, rel := range decodePkgs {
+				sp := r.w.Pkg(rel)
+				if sp == nil {
+					continue
+				}
+				for _, fn := range r.w.Funcs(sp) {
+					idx := errorIndex(fn.Signature)
+					if idx < 0 {
+						continue
+					}
+					for _, b := range fn.Blocks {
+						iff, ok := b.Instrs[len(b.Instrs)-1].(*ssa.If)
+						if !ok || b.Succs[0] == b.Succs[1] {
+							continue
+						}
+						for si := 0; si < 2; si++ {
+							c, ok := normFact(EdgeFact{Cond: iff.Cond, Taken: si == 0})
+							if !ok {
+								continue
+							}
+							x, y, op := c.X, c.Y, c.Op
+							if isInputSize(x) {
+								x, y, op = y, x, swapOp(op)
+							}
+							if !isInputSize(y) || isInputSize(x) {
+								continue
+							}
+							// does this edge lead straight to an error return?
+							succ := b.Succs[si]
+							ret, isRet := succ.Instrs[len(succ.Instrs)-1].(*ssa.Return)
+							if !isRet || !definitelyNonNilErr(ret.Results[idx], succ) {
+								continue
+							}
+							cons := "reject when " + pathOf(x) + " " + op.String() + " remaining"
+							r.Check(op == token.GTR, fname(fn), cons, iff.Pos(), "rejected only when the announced length exceeds the bytes remaining", "the field is rejected when %s %s the bytes remaining: a field that ends exactly at the end of the buffer (length == remaining) is well-formed and must be accepted / skipped", pathOf(x), op)
+						}
+					}
+				}
+			}
+		}})
+
 	register(&Rule{ID: "C06.R5", Props: []string{"C06"}, Min: 20, Needs: NeedMain,
 		Doc: "inside the codec and tup packages every error returned by a read primitive (bReadU*, Read*, ReadByte, SkipTo*) is propagated to the caller (never dropped, never overwritten by nil)",
 		Run: func(r *R) {
